@@ -824,6 +824,14 @@ fn c13_check(names: &[&str], default: &str) -> (u64, Vec<String>) {
         let enc = <codee::string::FromToStringCodec as codee::Encoder<Locale>>::encode(l).unwrap_or_default();
         if enc != name { problems.push(format!("cookie codec encodes {name} as {enc:?}")); }
         if serde_json::from_str::<Locale>(&serde_json::to_string(l).unwrap()).ok() != Some(*l) { problems.push(format!("serde round trip of {name} fails")); }
+        // .. also when the format cannot lend the name from its input: a reader, a Value, a JSON string with an escape
+        let js = serde_json::to_string(l).unwrap();
+        if serde_json::from_reader::<_, Locale>(js.as_bytes()).ok() != Some(*l) { problems.push(format!("serde round trip of {name} through a reader fails")); }
+        if serde_json::from_value::<Locale>(serde_json::Value::String(name.to_string())).ok() != Some(*l) { problems.push(format!("serde round trip of {name} through serde_json::Value fails")); }
+        let mut esc = String::from("\"");
+        for (i, c) in name.chars().enumerate() { if i == 0 { esc.push_str(&format!("\\u{:04x}", c as u32)); } else { esc.push(c); } }
+        esc.push('"');
+        if serde_json::from_str::<Locale>(&esc).ok() != Some(*l) { problems.push(format!("serde deserialisation of {name} written with an escape ({esc}) fails")); }
         // formats that are not self-describing (bincode, postcard) replay the very calls the two impls make: what
         // Serialize writes must be what Deserialize asks for
         let wrote = serde::Serialize::serialize(l, RecSer).unwrap_or_else(|e| format!("error:{e}"));
@@ -1192,7 +1200,7 @@ fn c17(tier: Tier, pid: &str) -> i32 {
         tables.insert(("en".to_string(), "vars".to_string()), vec![]);
         p.set_file(Some("vars2"), "en", vec![("only".into(), s(vec![var("z")]))]);
         tables.insert(("en".to_string(), "vars2".to_string()), vec![]);
-        p.set_file(Some("dash-ns"), "en", vec![("s".into(), st("dashed")), ("tail".into(), st("ok"))]);
+        p.set_file(Some("dash-ns"), "en", vec![("s".into(), st("dashed")), ("tail".into(), st("ok")), ("v".into(), s(vec![var("z")]))]);
         tables.insert(("en".to_string(), "dash-ns".to_string()), vec!["dashed".to_string(), "ok".to_string()]);
         for (ns, sv) in ns_names.iter().zip(&tok_strings) {
             p.set_file(Some(ns), "en", vec![("s".into(), st(sv)), ("tail".into(), st("ok"))]);
@@ -1233,6 +1241,19 @@ fn c17(tier: Tier, pid: &str) -> i32 {
             "PAGE touched [(\"en\", \"dash-ns\")]".to_string(),
             String::new(),
         );
+        // a unit whose only read is the VIEW of a key that holds no literal text (the unit's other keys do): it is a unit
+        // the request used; likewise the view of a key of a unit with an empty table
+        c.add(
+            "render_page(move || { let _ = leptos::prelude::IntoView::into_view(td!(Locale::en, dash_ns.v, z = 1)).to_html(); })".to_string(),
+            "PAGE view-of-a-variable-only-key touched [(\"en\", \"dash-ns\")]".to_string(),
+            String::new(),
+        );
+        c.add(
+            "render_page(move || { let _ = leptos::prelude::IntoView::into_view(td!(Locale::en, vars.amount, n = 42)).to_html(); })".to_string(),
+            "PAGE view-of-a-variable-only-key touched [(\"en\", \"vars\")]".to_string(),
+            String::new(),
+        );
+        n_pages += 2;
         // the unit id also travels through serde (server function arguments): name out, name in
         c.add(
             "{ let j = serde_json::to_string(&I18nTranslationUnitsId::dash_ns).unwrap(); let back: Result<I18nTranslationUnitsId, _> = serde_json::from_str(&j); format!(\"{j} {}\", back.is_ok()) }".to_string(),
@@ -1371,7 +1392,7 @@ fn c17(tier: Tier, pid: &str) -> i32 {
     rep.nontriv(n_pages);
     rep.sample(json!({"strings": ["\"\\", "</script>", "he said \"hi\" \\ </script> end", "\u{2028}a"]}));
     let mut cov = serde_json::Map::new();
-    cov.insert("rule".into(), json!("two probe crates built with dynamic_load + ssr (two namespaces x two locales; no namespaces): translation strings = all 196 two-character strings over 14 hostile characters plus </script>, </SCRIPT , <!--, -->, ]]>, U+2029, quotes, backtick, ${x}, newlines alone and inside a sentence with quotes and backslashes, and every sequence of <= 2 (thorough 3) tokens over <!--, <script>, <script , </script>, -->, <!-->, x; pages = <I18nContextProvider> rendered natively to HTML for every ordered subset of touched units (65 with namespaces, 5 without) and a context-driven render with a locale switch in the middle; third probe crate: every such token sequence of <= 2 tokens (+ a trailing x; thorough <= 3) alone in a namespace of its own, one page per namespace, plus two namespaces whose values are variables only (empty string tables) rendered alone, before / after another unit and both together with a third unit in three orders (an empty table is then never the last unit written), every page of <= 2 units also walked once with dry_resolve() before rendering (what a streamed render does below a Suspense boundary), and with the units read eagerly - while the provider's children are built, as a t_string! in a component body does - and with the first unit eager and the rest lazy, and a namespace whose name (`dash-ns`) differs from its Rust identifier; oracle: the <script> element is cut the way the WHATWG tokenizer cuts it (script data / escaped / double escaped states: after `<!--` then `<script` an end tag no longer closes the element), every script element of the page is evaluated in document order - each body must be `window.__LEPTOS_I18N_TRANSLATIONS = <array literal>;` and the value of the last one is what the client finds -, it is read by an ECMAScript literal reader (all JS escapes, no raw line terminators in strings), and its decoded value must list exactly the touched (locale, unit) pairs, each with the unit's table as exported by the generated server function; each exported table, serialised as the server function's answer, is read back through the library's client-side type LocaleServerFnOutputClient and must be the same list"));
+    cov.insert("rule".into(), json!("two probe crates built with dynamic_load + ssr (two namespaces x two locales; no namespaces): translation strings = all 196 two-character strings over 14 hostile characters plus </script>, </SCRIPT , <!--, -->, ]]>, U+2029, quotes, backtick, ${x}, newlines alone and inside a sentence with quotes and backslashes, and every sequence of <= 2 (thorough 3) tokens over <!--, <script>, <script , </script>, -->, <!-->, x; pages = <I18nContextProvider> rendered natively to HTML for every ordered subset of touched units (65 with namespaces, 5 without) and a context-driven render with a locale switch in the middle; third probe crate: every such token sequence of <= 2 tokens (+ a trailing x; thorough <= 3) alone in a namespace of its own, one page per namespace, plus two namespaces whose values are variables only (empty string tables) rendered alone, before / after another unit and both together with a third unit in three orders (an empty table is then never the last unit written), every page of <= 2 units also walked once with dry_resolve() before rendering (what a streamed render does below a Suspense boundary), and with the units read eagerly - while the provider's children are built, as a t_string! in a component body does - and with the first unit eager and the rest lazy, and a namespace whose name (`dash-ns`) differs from its Rust identifier, also read only through the view of a key without literal text; oracle: the <script> element is cut the way the WHATWG tokenizer cuts it (script data / escaped / double escaped states: after `<!--` then `<script` an end tag no longer closes the element), every script element of the page is evaluated in document order - each body must be `window.__LEPTOS_I18N_TRANSLATIONS = <array literal>;` and the value of the last one is what the client finds -, it is read by an ECMAScript literal reader (all JS escapes, no raw line terminators in strings), and its decoded value must list exactly the touched (locale, unit) pairs, each with the unit's table as exported by the generated server function; each exported table, serialised as the server function's answer, is read back through the library's client-side type LocaleServerFnOutputClient and must be the same list"));
     cov.insert("exhaustive".into(), json!(true));
     rep.finish(cov, &["the hydrate-side consumer (init_translations, serde_wasm_bindgen) needs a browser: not executed"])
 }
@@ -2029,7 +2050,26 @@ fn c04(tier: Tier) -> i32 {
                     v.extend([x.next_down(), x, x.next_up()]);
                 }
             }
-            let lits: Vec<String> = v.iter().map(|f| if ty == NumTy::F32 { format!("{:?}f32", *f as f32) } else { format!("{f:?}f64") }).collect();
+            // .. and the counts no comparison orders: NaN is in no span (`(a..b).contains(&NAN)` is false), the
+            // infinities are beyond every finite bound
+            v.extend([f64::NAN, f64::INFINITY, f64::NEG_INFINITY]);
+            let tyn = ty.name();
+            let lits: Vec<String> = v
+                .iter()
+                .map(|f| {
+                    if f.is_nan() {
+                        format!("{tyn}::NAN")
+                    } else if *f == f64::INFINITY {
+                        format!("{tyn}::INFINITY")
+                    } else if *f == f64::NEG_INFINITY {
+                        format!("{tyn}::NEG_INFINITY")
+                    } else if ty == NumTy::F32 {
+                        format!("{:?}f32", *f as f32)
+                    } else {
+                        format!("{f:?}f64")
+                    }
+                })
+                .collect();
             (format!("[{}].into_iter().enumerate()", lits.join(", ")), "n.0".into(), v.into_iter().map(Num::F).collect())
         } else {
             let b: Vec<i128> = [lo, lo + 1, -1, 0, 1, 2, hi - 1, hi].into_iter().filter(|x| *x >= lo && *x <= hi).collect();
@@ -2078,7 +2118,7 @@ fn c04(tier: Tier) -> i32 {
     rep.nontriv(n_decl);
     rep.sample(json!({"probe_stmt": "for n in i8::MIN..=i8::MAX { p(base + (n as i32 + 128) as usize, td_string!(Locale::en, r17, count = n).to_string()); }"}));
     let mut cov = serde_json::Map::new();
-    cov.insert("rule".into(), json!("one probe crate per numeric type (10): every one-branch declaration over the bound alphabet (exact, ..b, ..=b, a.., a..b, a..=b, alternatives) with a fallback, a thinned set of two-branch pairs in both syntaxes, a full cover without fallback for i8/u8; the generated match / if-chain is executed for ALL 256 counts (i8, u8) or every value within +-2 of a bound and the extremes (wider ints; next_up/next_down neighbours for floats) through td_string! and, for a subset, td! -> html; expected branch and `{{ count }}` text from the model's own spec parser + Rust comparison semantics"));
+    cov.insert("rule".into(), json!("one probe crate per numeric type (10): every one-branch declaration over the bound alphabet (exact, ..b, ..=b, a.., a..b, a..=b, alternatives) with a fallback, a thinned set of two-branch pairs in both syntaxes, a full cover without fallback for i8/u8; the generated match / if-chain is executed for ALL 256 counts (i8, u8) or every value within +-2 of a bound and the extremes (wider ints; next_up/next_down neighbours, NaN and both infinities for floats) through td_string! and, for a subset, td! -> html; expected branch and `{{ count }}` text from the model's own spec parser + Rust comparison semantics"));
     cov.insert("exhaustive".into(), json!(tier == Tier::Thorough));
     rep.finish(cov, &["only declarations rustc can prove exhaustive (fallback or full cover) can be compiled; the rest is decided at L1"])
 }
@@ -2629,7 +2669,7 @@ fn c15(tier: Tier) -> i32 {
     let rep = Reporter::new("C15", "L3", tier);
     // (declared locales, default)
     let configs: Vec<(Vec<&str>, &str)> = vec![(vec!["fr", "de"], "en"), (vec!["fr", "de", "en"], "en"), (vec!["fr", "en", "de"], "en"), (vec!["en", "fr", "de"], "en"), (vec!["de"], "fr"), (vec!["en-GB", "fr-CA"], "pt-BR"), (vec!["en", "zh", "fr", "sr-Latn"], "en"), (vec!["en", "de", "de-1996", "fr"], "en"), (vec!["ca-valencia", "de-CH-1996", "de-CH"], "en")];
-    let headers: Vec<Option<&str>> = vec![None, Some(""), Some("it"), Some("xx,yy"), Some("garbage!!"), Some("fr"), Some("de"), Some("en"), Some("it,de"), Some("de,fr"), Some("fr-CA,it"), Some("pt"), Some("en-US,en-GB"), Some("zh-Hant-TW,fr;q=0.8"), Some("zh-Hans"), Some("sr-Cyrl,zh-TW"), Some("sr-Latn-RS,fr"), Some("de-DE"), Some("de-1996"), Some("it,de-CH"), Some("ca"), Some("ca-ES-valencia,de"), Some("de-CH-1996")];
+    let headers: Vec<Option<&str>> = vec![None, Some(""), Some("it"), Some("xx,yy"), Some("garbage!!"), Some("fr"), Some("de"), Some("en"), Some("it,de"), Some("de,fr"), Some("fr-CA,it"), Some("pt"), Some("en-US,en-GB"), Some("zh-Hant-TW,fr;q=0.8"), Some("zh-Hans"), Some("sr-Cyrl,zh-TW"), Some("sr-Latn-RS,fr"), Some("de-DE"), Some("de-1996"), Some("it,de-CH"), Some("ca"), Some("ca-ES-valencia,de"), Some("de-CH-1996"), Some("xx,yy,it,es,nl,sv,de"), Some("it,es,nl,sv,da,fi,nb,fr"), Some("it,es,nl,sv,da,fi,nb,zh-Hant,sr-Latn")];
     let mut cases = vec![];
     for (ci, (locales, default)) in configs.iter().enumerate() {
         let mut p = Project::new(Config::simple(default, locales));
